@@ -540,6 +540,168 @@ theorem parseNumber_dec (w r : Bytes) (hw : GoodDec w) (hr : Sep r) :
   simp only []
   rw [← hR, List.take_append_of_le_length (by omega)]
 
+/-! the exponent branch of `parseNumber`: `digits e [+-] digits` is lexed as one number -/
+/-- an unsigned integer with an exponent: `m e x`, `m e+x`, `m e-x` (either case of `e`) -/
+def GoodSci (w : Bytes) : Prop :=
+  ∃ m x : Bytes, ∃ e : UInt8, ∃ s : Bytes, w = m ++ e :: (s ++ x) ∧ GoodNum m ∧ GoodNum x ∧ (e = 69 ∨ e = 101) ∧
+    (s = [] ∨ s = [43] ∨ s = [45])
+
+theorem e_facts (e : UInt8) (h : e = 69 ∨ e = 101) : isDigit e = false ∧ e ≠ 46 ∧ e ≠ 88 ∧ e ≠ 120 ∧ e ≠ 66 ∧ e ≠ 98 := by
+  rcases h with rfl | rfl <;> decide
+
+theorem get_app (m l : Bytes) (i : Nat) : (m ++ l)[m.length + i]? = l[i]? := by
+  rw [List.getElem?_append_right (by omega)]; congr 1; omega
+
+theorem sliceFrom_app (m l : Bytes) (k : Nat) (hk : k ≤ l.length) : sliceFrom (m ++ l) (m.length + k) = .ok (l.drop k) := by
+  unfold sliceFrom
+  have : m.length + k ≤ (m ++ l).length := by simp; omega
+  simp only [this, ↓reduceIte]
+  rw [← List.drop_drop, List.drop_left]
+
+theorem spn_digits_sepN (x r : Bytes) (hallx : x.all isDigit = true) (hr : SepN r) : spn isDigit (x ++ r) = x.length := by
+  rcases hr with rfl | ⟨d, r', rfl, hd⟩
+  · simp [spn_all isDigit x hallx]
+  · exact spn_append_stop isDigit x d r' hallx (numSep_facts d hd).1
+
+/-- the exponent stage on `m e s x r` -/
+theorem numExp_sci (m x r : Bytes) (e : UInt8) (s : Bytes) (he : e = 69 ∨ e = 101) (hs : s = [] ∨ s = [43] ∨ s = [45])
+    (hnex : x ≠ []) (hallx : x.all isDigit = true) (hr : SepN r) :
+    numExp (m ++ e :: (s ++ (x ++ r))) m.length = .ok (m.length + 1 + s.length + x.length, true, true) := by
+  obtain ⟨x0, xt, rfl⟩ := List.exists_cons_of_ne_nil hnex
+  have hx0 : isDigit x0 = true := by simp only [List.all_cons, Bool.and_eq_true] at hallx; exact hallx.1
+  have hx0s : (x0 == 43 || x0 == 45) = false := by
+    have : x0 ≠ 43 ∧ x0 ≠ 45 := by
+      constructor <;> (intro h; rw [h] at hx0; revert hx0; decide)
+    rw [beq_eq_false_iff_ne.mpr this.1, beq_eq_false_iff_ne.mpr this.2]; rfl
+  have hspn := spn_digits_sepN (x0 :: xt) r hallx hr
+  have hk : ((x0 :: xt).length != 0) = true := by simp
+  unfold numExp
+  have hlt : m.length < (m ++ e :: (s ++ (x0 :: xt ++ r))).length := by simp
+  have hge : (m ++ e :: (s ++ (x0 :: xt ++ r)))[m.length]? = some e := by
+    have := get_app m (e :: (s ++ (x0 :: xt ++ r))) 0
+    simpa using this
+  have hat0 : at' (m ++ e :: (s ++ (x0 :: xt ++ r))) m.length = .ok e := by unfold at'; rw [hge]
+  have ee : (e == 69 || e == 101) = true := by rcases he with rfl | rfl <;> rfl
+  simp only [hlt, ↓reduceIte, hat0, bind, Except.bind, pure, Except.pure, ee]
+  have hlt1 : m.length + 1 < (m ++ e :: (s ++ (x0 :: xt ++ r))).length := by simp; omega
+  simp only [hlt1, ↓reduceIte]
+  rcases hs with rfl | rfl | rfl
+  · have hg1 : (m ++ e :: ([] ++ (x0 :: xt ++ r)))[m.length + 1]? = some x0 := by
+      have := get_app m (e :: ([] ++ (x0 :: xt ++ r))) 1
+      simpa using this
+    have hat1 : at' (m ++ e :: ([] ++ (x0 :: xt ++ r))) (m.length + 1) = .ok x0 := by unfold at'; rw [hg1]
+    simp only [hat1, hx0s, Bool.false_eq_true, ↓reduceIte]
+    have hsl := sliceFrom_app m (e :: ([] ++ (x0 :: xt ++ r))) 1 (by simp)
+    simp only [List.drop_succ_cons, List.drop_zero, List.nil_append] at hsl
+    simp only [List.nil_append] at hsl ⊢
+    rw [hsl]
+    simp only [hspn, hk, List.length_nil, Nat.add_zero]
+  · have hg1 : (m ++ e :: ([43] ++ (x0 :: xt ++ r)))[m.length + 1]? = some 43 := by
+      have := get_app m (e :: ([43] ++ (x0 :: xt ++ r))) 1
+      simpa using this
+    have hat1 : at' (m ++ e :: ([43] ++ (x0 :: xt ++ r))) (m.length + 1) = .ok 43 := by unfold at'; rw [hg1]
+    simp only [hat1, show ((43 : UInt8) == 43 || (43 : UInt8) == 45) = true from rfl, ↓reduceIte]
+    have hsl := sliceFrom_app m (e :: ([43] ++ (x0 :: xt ++ r))) 2 (by simp)
+    simp only [List.drop_succ_cons, List.drop_zero, List.singleton_append] at hsl
+    rw [show m.length + 1 + 1 = m.length + 2 by omega]
+    simp only [List.singleton_append] at hsl ⊢
+    rw [hsl]
+    simp only [hspn, hk, List.length_cons, List.length_nil]
+    congr 2
+  · have hg1 : (m ++ e :: ([45] ++ (x0 :: xt ++ r)))[m.length + 1]? = some 45 := by
+      have := get_app m (e :: ([45] ++ (x0 :: xt ++ r))) 1
+      simpa using this
+    have hat1 : at' (m ++ e :: ([45] ++ (x0 :: xt ++ r))) (m.length + 1) = .ok 45 := by unfold at'; rw [hg1]
+    simp only [hat1, show ((45 : UInt8) == 43 || (45 : UInt8) == 45) = true from rfl, ↓reduceIte]
+    have hsl := sliceFrom_app m (e :: ([45] ++ (x0 :: xt ++ r))) 2 (by simp)
+    simp only [List.drop_succ_cons, List.drop_zero, List.singleton_append] at hsl
+    rw [show m.length + 1 + 1 = m.length + 2 by omega]
+    simp only [List.singleton_append] at hsl ⊢
+    rw [hsl]
+    simp only [hspn, hk, List.length_cons, List.length_nil]
+    congr 2
+
+/-- **an integer with an exponent is lexed as one number** spanning exactly its text -/
+theorem parseNumber_sci (w r : Bytes) (hw : GoodSci w) (hr : SepN r) :
+    parseNumber (w ++ r) = .ok { tok := { cat := 49, pos := 0, len := clip w.length, val := w.take (clip w.length) },
+                                 next := w.length } := by
+  obtain ⟨m, x, e, s, hwe, ⟨hnem, hallm⟩, ⟨hnex, hallx⟩, he, hs⟩ := hw
+  have hlm : 1 ≤ m.length := length_pos_of_ne_nil hnem
+  have hlx : 1 ≤ x.length := length_pos_of_ne_nil hnex
+  have hwl : w.length = m.length + 1 + s.length + x.length := by rw [hwe]; simp; omega
+  have hef := e_facts e he
+  generalize hR : w ++ r = R
+  have hRd : R = m ++ (e :: (s ++ (x ++ r))) := by rw [← hR, hwe]; simp
+  have hRl : R.length = w.length + r.length := by rw [← hR]; simp
+  have hl0 : 0 < R.length := by omega
+  have hspn : spn isDigit R = m.length := by
+    rw [hRd]; exact spn_append_stop isDigit m e _ hallm hef.1
+  have hget : ∀ i, R[m.length + i]? = (e :: (s ++ (x ++ r)))[i]? := by
+    intro i; rw [hRd, List.getElem?_append_right (by omega)]; congr 1; omega
+  have hafter : ∀ y, R[w.length]? = some y → isNumSep y = true := by
+    intro y hy
+    rw [← hR, List.getElem?_append_right (Nat.le_refl _), Nat.sub_self] at hy
+    rcases hr with rfl | ⟨d, r', rfl, hd⟩
+    · simp at hy
+    · have : y = d := by simpa using hy.symm
+      exact this ▸ hd
+  have hlte : m.length < R.length := by omega
+  have hRe : R[m.length] = e := by
+    have := hget 0
+    rw [Nat.add_zero, getElem_of _ _ hlte] at this
+    simpa using this
+  unfold parseNumber
+  simp only [at'_ok hl0, bind, Except.bind, pure, Except.pure]
+  have hds : numDigitSet R R[0] = .ok none := by
+    unfold numDigitSet
+    by_cases hc : (R[0] == 48 && decide (1 < R.length)) = true
+    · have h1 : 1 < R.length := by simp only [Bool.and_eq_true, decide_eq_true_eq] at hc; exact hc.2
+      simp only [hc, ↓reduceIte, at'_ok h1, bind, Except.bind, pure, Except.pure]
+      have hx : R[1] ≠ 88 ∧ R[1] ≠ 120 ∧ R[1] ≠ 66 ∧ R[1] ≠ 98 := by
+        rcases Nat.lt_or_ge 1 m.length with hl | hg
+        · have hm : R[1] ∈ m := by
+            have := List.getElem?_append_left (l₂ := e :: (s ++ (x ++ r))) hl
+            rw [← hRd, getElem_of _ 1 h1] at this
+            exact List.mem_of_getElem? this.symm
+          have := digit_facts _ (List.all_eq_true.mp hallm _ hm)
+          exact ⟨this.1, this.2.1, this.2.2.1, this.2.2.2.1⟩
+        · have e1 : m.length = 1 := by omega
+          have h1e : R[1] = e := by
+            have := hRe
+            simp only [e1] at this
+            exact this
+          rw [h1e]; exact ⟨hef.2.2.1, hef.2.2.2.1, hef.2.2.2.2.1, hef.2.2.2.2.2⟩
+      have e1 : (R[1] == 88 || R[1] == 120) = false := by
+        rw [beq_eq_false_iff_ne.mpr hx.1, beq_eq_false_iff_ne.mpr hx.2.1]; rfl
+      have e2 : (R[1] == 66 || R[1] == 98) = false := by
+        rw [beq_eq_false_iff_ne.mpr hx.2.2.1, beq_eq_false_iff_ne.mpr hx.2.2.2]; rfl
+      simp only [e1, e2, Bool.false_eq_true, ↓reduceIte]
+    · simp only [hc, Bool.false_eq_true, ↓reduceIte, pure, Except.pure]
+  simp only [hds, hspn]
+  have hdot : numDot R m.length = .ok (m.length, false) := by
+    unfold numDot
+    simp only [g, andM, toBool, byteIs, bind, Except.bind, pure, Except.pure]
+    have e46 : (R[m.length] == 46) = false := by rw [hRe]; exact beq_eq_false_iff_ne.mpr hef.2.1
+    simp only [hlte, decide_true, ↓reduceIte, at'_ok hlte, e46, Bool.false_eq_true]
+  have hexp : numExp R m.length = .ok (w.length, true, true) := by
+    rw [hRd, hwl]
+    exact numExp_sci m x r e s he hs hnex hallx hr
+  have hsuf : numSuffix R w.length = .ok w.length := by
+    unfold numSuffix
+    simp only [bind, Except.bind, pure, Except.pure]
+    by_cases hlt : w.length < R.length
+    · have := numSep_facts _ (hafter _ (getElem_of _ _ hlt))
+      have e4 : (R[w.length] == 100 || R[w.length] == 68 || R[w.length] == 102 || R[w.length] == 70) = false := by
+        rw [beq_eq_false_iff_ne.mpr this.2.2.2.2.2.2.2.2.1, beq_eq_false_iff_ne.mpr this.2.2.2.2.2.2.2.2.2.1,
+          beq_eq_false_iff_ne.mpr this.2.2.2.2.2.2.2.2.2.2.1, beq_eq_false_iff_ne.mpr this.2.2.2.2.2.2.2.2.2.2.2]; rfl
+      simp only [hlt, ↓reduceIte, at'_ok hlt, e4, Bool.false_eq_true]
+    · simp only [hlt, ↓reduceIte]
+  simp only [hdot, Bool.false_eq_true, ↓reduceIte, hexp, hsuf, Bool.true_and, Bool.not_true]
+  have hcl := clip_le w.length
+  rw [assign_ok _ _ _ _ _ (by omega)]
+  simp only []
+  rw [← hR, List.take_append_of_le_length (by omega)]
+
 /-- dispatch classes whose lexer falls back to `parseWord` -/
 def wordyP : P → Bool
   | .word | .bstring | .estring | .nqstring | .qstring | .ustring | .xstring => true
@@ -782,6 +944,7 @@ inductive Txt : Bytes → Prop
   | wordAt {w r : Bytes} {sp : UInt8} : GoodWord w → isSepByte sp = true → Txt (sp :: r) → Txt (w ++ sp :: r)
   | var {vw r : Bytes} : VarBody vw → Sep r → Txt r → Txt (64 :: (vw ++ r))
   | dec {w r : Bytes} : GoodDec w → Sep r → Txt r → Txt (w ++ r)
+  | sci {w r : Bytes} : GoodSci w → Sep r → Txt r → Txt (w ++ r)
   | dotted {w r : Bytes} : GoodDotted w → Sep r → Txt r → Txt (w ++ r)
   | dottedAt {w r : Bytes} {sp : UInt8} : GoodDotted w → isSepByte sp = true → Txt (sp :: r) → Txt (w ++ sp :: r)
   | punct {p : UInt8} {r : Bytes} : (p = 44 ∨ p = 63) → Txt r → Txt (p :: r)
@@ -903,6 +1066,38 @@ theorem tokLoop_txt (fuel : Nat) : ∀ (s : State), Txt (s.input.drop s.pos) →
       simp only [hne0, ↓reduceIte]
       refine ⟨true, _, rfl, ?_, rfl, rfl, rfl, rfl, fun _ => ⟨{ goodTok 110 w with pos := (goodTok 110 w).pos + s.pos },
         by simp [List.getElem?_set, hc], goodTok_benign 110 w (Or.inl ⟨rfl, hw⟩) _⟩⟩
+      show Txt (s.input.drop (s.pos + w.length))
+      rw [drop_add_of _ _ _ _ hd]; exact hr
+    | @sci w r hw hsep hr =>
+      have hw0 := hw
+      obtain ⟨d1, x, e, sg, hwe, ⟨hne1, hall1⟩, _, _, _⟩ := hw0
+      have hl1 : 1 ≤ d1.length := length_pos_of_ne_nil hne1
+      have hwl : 1 ≤ w.length := by rw [hwe]; simp; omega
+      have hlt : s.pos < s.input.length := by
+        rcases Nat.lt_or_ge s.pos s.input.length with hl | hg
+        · exact hl
+        · rw [List.drop_of_length_le hg] at hd
+          have := congrArg List.length hd
+          simp at this; omega
+      have hl0 : 0 < (s.input.drop s.pos).length := by rw [hd]; simp; omega
+      have hwr : 0 < (w ++ r).length := by simp; omega
+      have hc0 : (w ++ r)[0]'hwr ∈ d1 := by
+        have h1 : (w ++ r)[0]? = d1[0]? := by
+          rw [hwe, List.append_assoc, List.getElem?_append_left (by omega)]
+        rw [List.getElem?_eq_getElem hwr] at h1
+        exact List.mem_of_getElem? h1.symm
+      have hdisp := dispatch_digit _ (List.all_eq_true.mp hall1 _ hc0)
+      have hrun : parseNumber (w ++ r) = .ok { tok := goodTok 49 w, next := w.length } :=
+        parseNumber_sci w r hw hsep.toN
+      have h0 : (s.input.drop s.pos)[0] = (w ++ r)[0]'hwr := by simp [hd]
+      simp only [hlt, ↓reduceIte, sliceFrom_ok s.input s.pos (Nat.le_of_lt hlt), at'_ok hl0, h0, hdisp,
+        bind, Except.bind, pure, Except.pure, runP]
+      rw [hd, hrun]
+      simp only [tvSet_ok s s.cur _ hc]
+      have hne0 : (({ goodTok 49 w with pos := (goodTok 49 w).pos + s.pos } : Token).cat != 0) = true := rfl
+      simp only [hne0, ↓reduceIte]
+      refine ⟨true, _, rfl, ?_, rfl, rfl, rfl, rfl, fun _ => ⟨{ goodTok 49 w with pos := (goodTok 49 w).pos + s.pos },
+        by simp [List.getElem?_set, hc], Or.inr (Or.inl rfl)⟩⟩
       show Txt (s.input.drop (s.pos + w.length))
       rw [drop_add_of _ _ _ _ hd]; exact hr
     | @dec w r hw hsep hr =>
